@@ -18,6 +18,7 @@ import (
 	"net"
 	"net/netip"
 	"os"
+	"os/exec"
 	"path/filepath"
 	"sort"
 	"strings"
@@ -1674,15 +1675,144 @@ func c15Part2(e *Env, st *c15Stats, root string) {
 
 // ---------------------------------------------------------------------------------------------
 
+// c15FdShortage: capacity must survive a spell of failing accepts. The real binary runs with a limit
+// of N clients; its descriptor limit is lowered (prlimit) so that one client is served and the next
+// accepts fail with EMFILE for a while; then the limit is restored and the first client leaves. After
+// that N fresh clients must be served at the same time, as on a server that never saw the shortage.
+func c15FdShortage(e *Env, st *c15Stats, root string) {
+	run := e.Run
+	if e.Bin == "" {
+		return
+	}
+	if _, err := exec.LookPath("prlimit"); err != nil {
+		run.Count("fd_shortage_scenario_skipped_no_prlimit", 1)
+		return
+	}
+	for _, n := range []int{2, 3, 5} {
+		p, err := host.SpawnBin(e.Bin, []string{"server", "--root=" + root, "--listen-addr=127.0.0.1:0", fmt.Sprintf("--max-clients=%d", n)}, host.Opt{Dir: e.Dir("logs"), Tag: fmt.Sprintf("c15-fd%d", n)}, e.Dir("cwd"), true)
+		if err != nil {
+			run.Inconclusive(fmt.Sprintf("fd-shortage: cannot launch the binary: %v", err))
+			continue
+		}
+		func() {
+			defer p.Stop()
+			pid := p.Cmd.Process.Pid
+			addr := p.HostPort()
+			wd := e.Watchdog
+			roundTrip := func(c *wire.Client) bool {
+				if c.Send(wire.P(wire.OpStat, "/")) != nil {
+					return false
+				}
+				_, stt := c.ReadNT(wire.SzStat, wd)
+				return stt == wire.Full
+			}
+			serve := func(k int) (int, []*wire.Client) { // k clients at once, all kept open: how many get an answer
+				var cls []*wire.Client
+				res := make([]bool, k)
+				var wg sync.WaitGroup
+				for i := 0; i < k; i++ {
+					c, err := wire.Dial(addr, nil, wd)
+					if err != nil {
+						continue
+					}
+					cls = append(cls, c)
+					wg.Add(1)
+					go func() { defer wg.Done(); res[i] = roundTrip(c) }()
+				}
+				wg.Wait()
+				ok := 0
+				for _, r := range res {
+					if r {
+						ok++
+					}
+				}
+				return ok, cls
+			}
+			closeAll := func(cls []*wire.Client) {
+				for _, c := range cls {
+					c.Close()
+				}
+			}
+			run.Eval(1)
+			// control: before the shortage the server serves N at once
+			ok0, cls := serve(n)
+			closeAll(cls)
+			if ok0 != n {
+				run.Inconclusive(fmt.Sprintf("fd-shortage N=%d: only %d of %d clients served before the shortage (judged by the schedules)", n, ok0, n))
+				return
+			}
+			time.Sleep(100 * time.Millisecond)
+			ents, err := os.ReadDir(fmt.Sprintf("/proc/%d/fd", pid))
+			if err != nil {
+				run.Inconclusive("fd-shortage: cannot read the descriptor table: " + err.Error())
+				return
+			}
+			low := len(ents) + 1 // room for exactly one connection
+			restore := "--nofile=1024:"
+			if out, err := exec.Command("prlimit", fmt.Sprintf("--pid=%d", pid), "--nofile", "-o", "SOFT", "--noheadings").Output(); err == nil && strings.TrimSpace(string(out)) != "" {
+				restore = "--nofile=" + strings.TrimSpace(string(out)) + ":"
+			}
+			if out, err := exec.Command("prlimit", fmt.Sprintf("--pid=%d", pid), fmt.Sprintf("--nofile=%d:", low)).CombinedOutput(); err != nil {
+				run.Count("fd_shortage_scenario_skipped_prlimit_refused", 1)
+				_ = out
+				return
+			}
+			a, err := wire.Dial(addr, nil, wd)
+			if err != nil || !roundTrip(a) {
+				run.Inconclusive(fmt.Sprintf("fd-shortage N=%d: the one client that fits under the lowered limit was not served", n))
+				exec.Command("prlimit", fmt.Sprintf("--pid=%d", pid), restore).Run()
+				return
+			}
+			// these arrive while accept fails (no descriptor left); they wait in the backlog
+			var waiting []*wire.Client
+			for i := 0; i < n; i++ {
+				if c, err := wire.Dial(addr, nil, wd); err == nil {
+					c.Send(wire.P(wire.OpStat, "/"))
+					waiting = append(waiting, c)
+				}
+			}
+			time.Sleep(700 * time.Millisecond) // several failed accepts (the server retries with a growing pause)
+			exec.Command("prlimit", fmt.Sprintf("--pid=%d", pid), restore).Run()
+			a.Close()
+			closeAll(waiting)
+			time.Sleep(1200 * time.Millisecond) // longest pause between two accept attempts is 1 s
+			// the shortage is over and everybody has left: N fresh clients at once
+			ok1, cls1 := serve(n)
+			defer closeAll(cls1)
+			wit := map[string]any{"max_clients": n, "nofile_during_shortage": low, "served_before": ok0, "served_after": ok1, "stderr_tail": tailStr(strings.Split(p.Stderr(), "\n"), 8)}
+			switch {
+			case !p.Alive():
+				run.Violate("process-died", "bin fd-shortage", fmt.Sprintf("[binary --max-clients=%d] the server died during a descriptor shortage: %s", n, p.ExitString()), wit)
+			case ok1 == n:
+				run.Sig("bin fd-shortage N=%d capacity kept", n)
+				run.Count("fd_shortage_capacity_kept", 1)
+			default:
+				// once more, after another watchdog period, before it counts
+				closeAll(cls1)
+				time.Sleep(2 * time.Second)
+				ok2, cls2 := serve(n)
+				defer closeAll(cls2)
+				wit["served_after_retry"] = ok2
+				if ok2 != n {
+					run.Violate("capacity-lost", "bin after failing accepts", fmt.Sprintf("[binary --max-clients=%d] before a spell of failing accepts (descriptor limit lowered to %d for 0.7 s while %d clients knocked) %d clients were served at once; after it, with the limit restored and every client gone, only %d and then %d of %d fresh clients are answered within %v each", n, low, n, ok0, ok1, ok2, n, wd), wit)
+				} else {
+					run.Inconclusive(fmt.Sprintf("fd-shortage N=%d: %d of %d served right after the shortage, all of them %v later", n, ok1, n, 2*time.Second))
+				}
+			}
+		}()
+	}
+}
+
 func C15(e *Env) {
 	run := e.Run
-	run.Rule = "cases: (a) one probe = (whitelist specification, client source address): specifications from the documented grammar restricted to loopback (single, range, CIDR /8../32 with and without host bits, netmask form, IPv6-only sets), sources at the set's borders +-1 (network/broadcast address of a block), random interior, near and far exterior, 127.0.0.1, ::1 against [::1] listeners, and IPv4 sources against dual-stack [::] listeners (peers arrive as IPv4-mapped addresses); membership expected from the reference address set; the client connects, sends STAT / and must either receive the complete 33-byte answer (inside) or be closed by the server with zero bytes (outside). (b) one step of a PRNG schedule over up to 4N clients against a server limited to N clients (optionally also whitelisted): ARRIVE, ARRIVE while N are held (must stay unanswered across 3 complete round trips of every held client), DEPART (orderly / half-close / RST; a waiting client must then be answered), DEPART_WAITING, ARRIVE_REJECTED, ROUNDTRIP, then close-everything + N fresh clients served concurrently, then a burst of 3N rejected arrivals + N fresh clients. Both on the library worker (LimitListener under FilterListener as in cmd/) and on the real binary (flags and environment). Verdicts from the client-side event log (one monotonic clock): zero-byte/closed/answered per probe, max overlap of certainly-served intervals <= N, no first byte for a waiting client before a departure; liveness verdicts need a 10 s watchdog plus a responsive control, else inconclusive. non-trivial = distinct (target, spec class, membership, position) and (target, N, step kind, departure variant, outcome)"
+	run.Rule = "cases: (a) one probe = (whitelist specification, client source address): specifications from the documented grammar restricted to loopback (single, range, CIDR /8../32 with and without host bits, netmask form, IPv6-only sets), sources at the set's borders +-1 (network/broadcast address of a block), random interior, near and far exterior, 127.0.0.1, ::1 against [::1] listeners, and IPv4 sources against dual-stack [::] listeners (peers arrive as IPv4-mapped addresses); membership expected from the reference address set; the client connects, sends STAT / and must either receive the complete 33-byte answer (inside) or be closed by the server with zero bytes (outside). (b) one step of a PRNG schedule over up to 4N clients against a server limited to N clients (optionally also whitelisted): ARRIVE, ARRIVE while N are held (must stay unanswered across 3 complete round trips of every held client), DEPART (orderly / half-close / RST; a waiting client must then be answered), DEPART_WAITING, ARRIVE_REJECTED, ROUNDTRIP, then close-everything + N fresh clients served concurrently, then a burst of 3N rejected arrivals + N fresh clients; (c) the real binary with N in {2,3,5}: descriptor limit lowered with prlimit so that accepts fail for 0.7 s while N clients knock, limit restored, everybody leaves, then N fresh clients must be served at once. (a) and (b) both on the library worker (LimitListener under FilterListener as in cmd/) and on the real binary (flags and environment). Verdicts from the client-side event log (one monotonic clock): zero-byte/closed/answered per probe, max overlap of certainly-served intervals <= N, no first byte for a waiting client before a departure; liveness verdicts need a 10 s watchdog plus a responsive control, else inconclusive. non-trivial = distinct (target, spec class, membership, position) and (target, N, step kind, departure variant, outcome)"
 	root := e.Dir("c15root")
 	must(os.WriteFile(filepath.Join(root, "hello.txt"), []byte("hello"), 0o644))
 	st := &c15Stats{maxStrict: map[string]int{}, maxLoose: map[string]int{}}
 
 	c15Part1(e, st, root)
 	c15Part2(e, st, root)
+	c15FdShortage(e, st, root)
 
 	run.Obs("server_launches", st.launches)
 	run.Obs("events_recorded", st.events)
